@@ -275,8 +275,22 @@ impl FixtureDatabase {
         Some(arc_ast)
     }
 
+    /// Syntax tree for import lookups: the tree of `content` if it parses, otherwise the
+    /// tree of the file's last valid version (kept by the analysis), if any.
+    pub(crate) fn get_parsed_ast_or_last_valid(
+        &self,
+        file_path: &Path,
+        content: &str,
+    ) -> Option<Arc<rustpython_parser::ast::Mod>> {
+        self.get_parsed_ast(file_path, content).or_else(|| {
+            self.ast_cache
+                .get(file_path)
+                .map(|cached| Arc::clone(&cached.value().1))
+        })
+    }
+
     /// Compute a hash of the content for cache invalidation.
-    fn hash_content(content: &str) -> u64 {
+    pub(crate) fn hash_content(content: &str) -> u64 {
         let mut hasher = DefaultHasher::new();
         content.hash(&mut hasher);
         hasher.finish()
